@@ -12,6 +12,7 @@ import common as C
 import verde as vd
 
 ID = "C19"
+TRANSLATED = "io"          # Gen/IO.lean (_read_surfer_header, _check_surfer_integrity) is regenerated from /repo and bridged to the model in Props/C19.lean
 FILES = ["verde/io.py"]
 RULE = ("corpus + seeded Surfer ASCII files: shapes 2..7 x 2..7, regions, magnitudes 1e-3..1e30 incl. values adjacent to the blank threshold, negative and "
         "repeated values, blank patterns, number formatting (fixed / exponent / integer) and whitespace (spaces, tabs, leading/trailing, blank lines), both "
@@ -140,6 +141,12 @@ def generate(rng, tier):
             k = rng.randrange(2)
             H["shape_toks"][k] = str(int(H["shape_toks"][k]) + rng.choice([-1, 1]))
             kind = "bad-count"
+        elif u < 0.72 and abs(hi) > 1e-2 and abs(lo) > 1e-2:
+            # a header range just outside / just inside numpy.allclose's tolerance (rtol 1e-5 of the header value, atol 1e-8)
+            which, outside = rng.randrange(2), rng.random() < 0.6
+            v = [lo, hi][which] * (1.0 + (3e-5 if outside else 3e-6) * rng.choice([-1, 1]))
+            H["range_toks"][which] = repr(float(v))
+            kind = "bad-range-just-outside-tolerance" if outside else "valid-range-just-inside-tolerance"
         elif u < 0.76:
             if rng.random() < 0.5:
                 H["range_toks"] = [fmt_num(rng, hi + abs(hi) * 0.5 + 1.0), H["range_toks"][1]]
